@@ -213,18 +213,19 @@ Section Fuel.
   Let N := length H.
 
   Definition wt (v : nat) : nat := 2 ^ (N - v).
-  Definition pot (st : list nat) : nat := list_sum (map wt st).
+  Fixpoint pot (st : list nat) : nat :=
+    match st with [] => 0 | v :: st => wt v + pot st end.
 
   Lemma wt_pos v : 1 <= wt v.
   Proof. unfold wt. pose proof (Nat.pow_nonzero 2 (N - v)). lia. Qed.
 
   Lemma pot_app a b : pot (a ++ b) = pot a + pot b.
-  Proof. unfold pot. now rewrite map_app, list_sum_app. Qed.
+  Proof. induction a as [|x a IH]; cbn [app pot]; lia. Qed.
 
   Lemma pot_rev a : pot (rev a) = pot a.
   Proof.
     induction a as [|x a IH]; cbn [rev]; auto.
-    rewrite pot_app, IH. unfold pot. cbn [map list_sum]. lia.
+    rewrite pot_app, IH. cbn [pot]. lia.
   Qed.
 
   Lemma pot_seq_bound (P : nat -> bool) : forall n a,
@@ -234,7 +235,7 @@ Section Fuel.
     - cbn. lia.
     - specialize (IH (S a) ltac:(lia)).
       rewrite Nat.pow_succ_r'. destruct (P a).
-      + unfold pot in *. cbn [map list_sum]. unfold wt at 1.
+      + cbn [pot]. unfold wt at 1.
         replace (N - a) with (S n) by lia. rewrite Nat.pow_succ_r'. lia.
       + lia.
   Qed.
@@ -257,8 +258,8 @@ Section Fuel.
       rewrite seq_app, filter_app, pot_app. cbn [plus].
       rewrite (filter_none P (seq 0 (S u))).
       + pose proof (pot_seq_bound P (N - S u) (S u) ltac:(lia)) as B.
-        unfold wt at 2. replace (N - u) with (S (N - S u)) by lia.
-        rewrite Nat.pow_succ_r'. cbn [pot map list_sum plus] in *. lia.
+        unfold wt. replace (N - u) with (S (N - S u)) by lia.
+        rewrite Nat.pow_succ_r'. cbn [pot plus] in *. lia.
       + intros c Hc. apply in_seq in Hc. destruct (P c) eqn:E; auto.
         apply HP in E. lia.
     - rewrite (filter_none P (seq 0 N)).
@@ -275,7 +276,7 @@ Section Fuel.
     - lia.
     - destruct (test u); [discriminate|]. apply IH.
       rewrite pot_app, pot_rev. pose proof (pot_subclasses u).
-      unfold pot in Hp. cbn [map list_sum] in Hp. fold (pot rest) in Hp. lia.
+      cbn [pot] in Hp. lia.
   Qed.
 
   Lemma get_walk_pot : forall fuel st vis,
@@ -294,7 +295,7 @@ Section Fuel.
 
   Lemma pot_single T : pot [T] < walk_fuel H.
   Proof.
-    unfold pot, walk_fuel, wt. cbn [map list_sum]. fold N.
+    unfold walk_fuel, wt. cbn [pot]. unfold wt. fold N.
     assert (2 ^ (N - T) <= 2 ^ N) by (apply Nat.pow_le_mono_r; lia). lia.
   Qed.
 
